@@ -1383,6 +1383,150 @@ fn readflush_case(rng: &mut Rng, out: &mut Out, dir: &str, idx: u64) {
     let _ = std::fs::remove_file(&path);
 }
 
+/// the live io_uring path with a device that rejects writes: the store is opened with the ring enabled (every
+/// other case forces the synchronous path for determinism), then the file-size limit of the process is lowered so
+/// that ring writes past it complete with EFBIG.  flush(), reads and drop must all return; with room again a
+/// further flush and the drop must return too.  (Where the sandbox has no io_uring the store falls back to the
+/// synchronous path by itself and the case exercises that.)
+fn ring_case(rng: &mut Rng, out: &mut Out, dir: &str, idx: u64) {
+    feoxdb::verif::clock::unpin();
+    let path = format!("{}/ring{}.feox", dir, idx);
+    let _ = std::fs::remove_file(&path);
+    unsafe { libc::signal(libc::SIGXFSZ, libc::SIG_IGN); }
+    feoxdb::verif::io::disable_ring(false);
+    let built = FeoxStore::builder().device_path(path.clone()).file_size(2048 * BS).hash_bits(8).enable_caching(rng.chance(1, 2)).no_memory_limit().build();
+    feoxdb::verif::io::disable_ring(true);
+    let store = match built { Ok(s) => Arc::new(s), Err(_) => return };
+    for i in 0..rng.range(2, 10) { let _ = store.insert(format!("pre{:03}", i).as_bytes(), &pattern(i as u8, 900)); }
+    let st = store.clone();
+    if !with_watchdog(move || { let _ = st.flush(); }) {
+        out.failures.push("C18\tring case: flush() on a healthy device (io_uring path) did not return\t-".into());
+        return;
+    }
+    let mut old = libc::rlimit { rlim_cur: 0, rlim_max: 0 };
+    unsafe { libc::getrlimit(libc::RLIMIT_FSIZE, &mut old); }
+    let cut = (16 + rng.range(6, 60)) * BS as u64;
+    let low = libc::rlimit { rlim_cur: cut, rlim_max: old.rlim_max };
+    unsafe { libc::setrlimit(libc::RLIMIT_FSIZE, &low); }
+    let n = rng.range(80, 400);
+    let vl = *rng.pick(&[700usize, 3000, 5000]);
+    for i in 0..n { let _ = store.insert(format!("rk{:04}", i).as_bytes(), &pattern(i as u8, vl)); }
+    let st = store.clone();
+    let flushed = with_watchdog(move || { let _ = st.flush(); });
+    let st = store.clone();
+    let read = flushed && with_watchdog(move || { for i in 0..n { let _ = st.get(format!("rk{:04}", i).as_bytes()); } let _ = st.range_query(b"rk", b"rl", 50); });
+    unsafe { libc::setrlimit(libc::RLIMIT_FSIZE, &old); }
+    out.count("ring case");
+    if !flushed {
+        out.failures.push(format!("C18\tring case: flush() did not return within {} s after device writes past byte {} were rejected (EFBIG) on the live write path ({} keys of {} bytes buffered)\t-", WATCHDOG.as_secs(), cut, n, vl));
+        return;
+    }
+    if !read {
+        out.failures.push(format!("C18\tring case: reads did not return within {} s after a flush whose device writes past byte {} were rejected\t-", WATCHDOG.as_secs(), cut));
+        return;
+    }
+    let st = store.clone();
+    if !with_watchdog(move || { let _ = st.flush(); }) {
+        out.failures.push("C18\tring case: flush() did not return once the device accepted writes again\t-".into());
+        return;
+    }
+    let st = store.clone();
+    drop(store);
+    if !with_watchdog(move || drop(st)) { out.failures.push("C18\tring case: drop of the store did not return after rejected device writes\t-".into()); return; }
+    let _ = std::fs::remove_file(&path);
+}
+
+/// free-running: the background sweeper working through a large batch of expired keys while writers
+/// re-create each key (without a TTL) the moment it is gone.  A re-created key's latest generation has no
+/// expiry: every read path must show it afterwards, and the two indexes must name the same keys.  (The hooked
+/// sweeper case parks the sweeper *before* its guarded removal; whatever it does after the guard is only
+/// reachable free-running.)
+fn sweeprace_case(rng: &mut Rng, out: &mut Out, dir: &str, idx: u64) {
+    use std::sync::atomic::{AtomicBool, AtomicU64, Ordering as O};
+    feoxdb::verif::clock::unpin();
+    let mem = rng.chance(2, 3);
+    let path = format!("{}/sweeprace{}.feox", dir, idx);
+    let store = {
+        let mut b = FeoxStore::builder().hash_bits(10).enable_ttl(true).no_memory_limit();
+        if !mem {
+            let _ = std::fs::remove_file(&path);
+            b = b.device_path(path.clone()).file_size(4096 * BS).enable_caching(rng.chance(1, 2));
+        }
+        match b.build() { Ok(s) => Arc::new(s), Err(_) => return }
+    };
+    let nkeys = if mem { rng.range(20_000, 60_000) } else { rng.range(1_500, 3_000) } as usize;
+    let keys: Arc<Vec<Vec<u8>>> = Arc::new((0..nkeys).map(|i| format!("sw{:07}", i).into_bytes()).collect());
+    // explicit timestamps near the epoch: every record is past its expiry the moment it is written
+    for (i, k) in keys.iter().enumerate() {
+        let _ = store.insert_with_ttl_and_timestamp(k, b"old", 1, Some(1_000 + i as u64));
+    }
+    store.start_ttl_sweeper(Some(feoxdb::core::ttl_sweep::TtlConfig {
+        sample_size: nkeys, expiry_threshold: 0.25, max_iterations: 16, max_time_per_run: Duration::from_secs(1),
+        sleep_interval: Duration::from_millis(20), enabled: true,
+    }));
+    let stop = Arc::new(AtomicBool::new(false));
+    let done = Arc::new(AtomicU64::new(0));
+    let nthreads = rng.range(1, 3) as usize;
+    let mut hs = vec![];
+    for t in 0..nthreads {
+        let (st, keys, stop, done) = (store.clone(), keys.clone(), stop.clone(), done.clone());
+        hs.push(std::thread::spawn(move || {
+            let mine: Vec<usize> = (0..keys.len()).filter(|i| i % nthreads == t).collect();
+            let mut re = vec![false; mine.len()];
+            let mut left = mine.len();
+            while left > 0 && !stop.load(O::Relaxed) {
+                for (j, i) in mine.iter().enumerate() {
+                    if !re[j] && !st.contains_key(&keys[*i]) {
+                        if st.insert(&keys[*i], b"new").is_ok() { re[j] = true; left -= 1; done.fetch_add(1, O::Relaxed); }
+                    }
+                }
+            }
+            (mine, re)
+        }));
+    }
+    let t0 = Instant::now();
+    while done.load(O::Relaxed) < nkeys as u64 && t0.elapsed() < Duration::from_secs(6) { std::thread::sleep(Duration::from_millis(5)); }
+    stop.store(true, O::Relaxed);
+    let mut recreated: Vec<usize> = vec![];
+    for h in hs {
+        let t1 = Instant::now();
+        while !h.is_finished() && t1.elapsed() < WATCHDOG { std::thread::sleep(Duration::from_millis(1)); }
+        if !h.is_finished() { out.failures.push("C18\ta writer following the sweeper did not finish\t-".into()); return; }
+        match h.join() {
+            Ok((mine, re)) => recreated.extend(mine.iter().zip(re.iter()).filter(|(_, r)| **r).map(|(i, _)| *i)),
+            Err(_) => { out.failures.push("C11\tsweeper racing with re-creating writers: a writer panicked inside the store\t-".into()); }
+        }
+    }
+    // let the sweeper finish the run it is in and go through one more, idle, cycle
+    std::thread::sleep(Duration::from_millis(400));
+    let listed: std::collections::HashSet<Vec<u8>> = store.range_query(b"sw", b"sx", nkeys + 16).map(|r| r.into_iter().map(|x| x.0).collect()).unwrap_or_default();
+    let mut bad: Option<String> = None;
+    let mut hidden = 0usize;
+    for i in &recreated {
+        let k = &keys[*i];
+        match store.get(k) {
+            Ok(v) if v == b"new" => {}
+            other_ => { if bad.is_none() { bad = Some(format!("key {} was re-created without a TTL after the sweeper removed its expired generation, but get() answers {:?}", String::from_utf8_lossy(k), other_.map(|v| v.len()))); } }
+        }
+        if !listed.contains(k) { hidden += 1; }
+    }
+    if hidden > 0 && bad.is_none() {
+        bad = Some(format!("{} of {} keys that were re-created without a TTL while the sweeper was working through their batch are returned by get() but missing from range_query", hidden, recreated.len()));
+    }
+    out.count("sweeprace case");
+    out.count(&format!("sweeprace {}", if mem { "memory-only" } else { "persistent" }));
+    *out.hist.entry("sweeprace keys re-created".into()).or_insert(0) += recreated.len() as u64;
+    report_inv(out, &store, None, "after the sweeper raced with re-creating writers");
+    if let Some(b) = bad {
+        out.failures.push(format!("C11\tsweeper racing with re-creating writers ({}): {}\t-", if mem { "memory-only" } else { "persistent" }, b));
+        out.failures.push(format!("C14\tsweeper racing with re-creating writers ({}): {}\t-", if mem { "memory-only" } else { "persistent" }, b));
+    }
+    let st = store.clone();
+    drop(store);
+    if !with_watchdog(move || drop(st)) { out.failures.push("C18\tdrop of the store after a sweeper race did not return\t-".into()); }
+    let _ = std::fs::remove_file(&path);
+}
+
 /// free-running: range scans and reads racing with every kind of update of the scanned keys
 /// (overwrite, CAS, increment-free: values are self-describing `<id>|<writer>|<round>|padding`),
 /// deletes and re-creations.  Every value a scan or a get returns must be one that was written
@@ -1895,6 +2039,13 @@ fn main() {
     }
     for i in 0..get("scanrace", 0) {
         scanrace_case(&mut rng, &mut out, &args.out, i);
+    }
+    for i in 0..get("ring", 0) {
+        ring_case(&mut rng, &mut out, &args.out, i);
+        if out.failures.iter().any(|f| f.starts_with("C18")) { break; }
+    }
+    for i in 0..get("sweeprace", 0) {
+        sweeprace_case(&mut rng, &mut out, &args.out, i);
     }
     for i in 0..get("readflush", 0) {
         readflush_case(&mut rng, &mut out, &args.out, i);
